@@ -850,3 +850,17 @@ package keeper
 //@ props C20 C04 C07 C14 C06
 //@ ensures reads_its_own_parameter: res == params.BaseDenom
 
+
+// ---------------------------------------------------------------- schema query (C17): the two system schemas by (case-insensitive) name
+//@ func (Keeper).Schema
+//@ vars (keeper.Keeper).Schema: k=github.com/irismod/service/keeper.Keeper#0 c=context.Context#0 req=*github.com/irismod/service/types.QuerySchemaRequest#0 schemaName=string#0 schema=string#1
+//@ props C17
+//@ ensures [C17] the_named_system_schema: err == NoErr ==> ((strLower(req.SchemaName) == "pricing" && result0.Schema == k_types_PricingSchema) ||
+//@      (strLower(req.SchemaName) == "result" && result0.Schema == k_types_ResultSchema))
+//@ ensures [C17] error_exactly_for_other_names: (err == NoErr) <==> (strLower(req.SchemaName) == "pricing" || strLower(req.SchemaName) == "result")
+
+//@ func querySchema
+//@ vars keeper.querySchema: ctx=github.com/cosmos/cosmos-sdk/types.Context#0 req=github.com/tendermint/tendermint/abci/types.RequestQuery#0 k=github.com/irismod/service/keeper.Keeper#0 legacyQuerierCdc=*github.com/cosmos/cosmos-sdk/codec.LegacyAmino#0 params=github.com/irismod/service/types.QuerySchemaParams#0 err=error#0 schemaName=string#0 schema=string#1 bz=[]byte#0 err=error#1
+//@ props C17
+//@ ensures [C17] same_answer_as_grpc: err == NoErr ==> (let n := strLower(jsonDec_QuerySchemaParams(fld_Opaque_RequestQuery_Data(req)).SchemaName) in
+//@      (n == "pricing" && result0 == jsonEnc_Str(k_types_PricingSchema)) || (n == "result" && result0 == jsonEnc_Str(k_types_ResultSchema)))
